@@ -364,13 +364,15 @@ def sibling_queries(propset, variants, roots=(1, 2)):
     for root, node in sibling_nodes():
         if root not in roots:
             continue
+        if root == 1 and str(shapes.skeleton(node.children[0])[0]) != str(shapes.skeleton(node.children[1])[0]):
+            continue          # of the 16 object-rooted pairs only the 4 with X == Y (cost, see docstring)
         first = node.children[0]
         plans_ = {"skip": {id(first): "skip"}, "raw": {id(first): "raw"}, "tw": {id(first): "tw"}, "full": {}}
         for v in variants:
             q = shape_script_query(propset, node, shapes.full_script(node, plan=plans_[v]), "sib-" + v, root)
             if root == 1:
-                q.mem_gb = 16
-                q.timeout = 3000
+                q.mem_gb = 8           # per-query limit 20 GB
+                q.timeout = 900
             qs.append(q)
     return _sparse_witness(qs, 8)
 
@@ -851,12 +853,12 @@ def plan_C11(tier):
     # object context with equal-length SYMBOLIC names: what get_raw leaves behind at the parent level must not disturb the
     # name bookkeeping of the following fields
     from . import shapes as _s2
-    eq = [(r, n) for r, n in sibling_nodes() if r == 1][: (0 if tier == "quick" else 16)]
+    eq = [(r, n) for r, n in sibling_nodes() if r == 1][: (0 if tier == "quick" else 4)]
     for root, node in eq:
         rn = _s2.renamed(node, 1)
         first = rn.children[0]
-        q = shape_script_query(11, rn, _s2.full_script(rn, plan={id(first): "raw"}), "sib-raw-eqnames", root, timeout=3000)
-        q.mem_gb = 16
+        q = shape_script_query(11, rn, _s2.full_script(rn, plan={id(first): "raw"}), "sib-raw-eqnames", root, timeout=900)
+        q.mem_gb = 8
         qs.append(q)
     # parser_to_writer into a writer that the container fills EXACTLY (the two-pass sizing idiom)
     from . import shapes as _sh
